@@ -49,6 +49,7 @@ def run(ctx, R):
     F = ctx.facts()
     choice_sequence_order(F, R)
     first_entry_flags(F, R)
+    merge_guard_compares_two_clauses(F, R)
     R.rule("RF9/RF10 canonical-key routing; RF3/RF4 float interning; RF1 lookup sites; RF1 construction vs removal; RF10 index_term")
 
     # ---- R1: routing ----------------------------------------------------------------------------
@@ -421,3 +422,48 @@ def first_entry_flags(F, R, prefix="C06", only=None):
             R.sample({"fn": short(fn), "line": t["ln"], "pushed_to": recv, "flag_from": tested})
             k += 1
     R.floor("%s: per-key choice sequence pushes" % prefix, n, 4 if not only else 2)
+
+
+def merge_guard_compares_two_clauses(F, R):
+    """The incremental compiler merges a new clause into an existing indexed block only when both are indexed on the same
+    argument position: it compares opt_arg_index_key.arg_num() of the NEW clause with that of the block's clause. Both
+    operands of such a comparison must come from different clauses (different index expressions into the skeleton) — a
+    comparison of a clause with itself is always true and merges a clause keyed on another argument into the block, whose
+    table is then consulted with the wrong argument's value."""
+    import json
+    n = 0
+    for p, it in sorted(F.items.items()):
+        if it["file"] != "src/machine/compile.rs" or it["kind"] not in ("Fn", "AssocFn"):
+            continue
+        body = F.hir(p)["body"]
+        lets = {x["pat"]["name"]: x["init"] for x in walk(body) if x["k"] == "Let" and x["pat"]["k"] == "PBind" and "init" in x}
+
+        def source(e):
+            """canonical text of the skeleton index an arg_num() value was taken from"""
+            if e["k"] == "Path" and res_name(e) in lets:
+                e = lets[res_name(e)]
+            calls = [x for x in walk(e) if x["k"] == "MethodCall" and x["name"] == "arg_num"]
+            if len(calls) != 1:
+                return None
+            idx = [y for y in walk(calls[0]["recv"]) if y["k"] == "Index"]
+            if not idx:
+                return None
+            i = idx[0].get("idx") or idx[0].get("index")
+
+            def canon(z):
+                if isinstance(z, list):
+                    return [canon(q) for q in z]
+                if not isinstance(z, dict):
+                    return z
+                return {k: canon(v) for k, v in z.items() if k not in ("ln", "mac", "span", "adj_ty")}
+            return json.dumps(canon(i), sort_keys=True)
+        for x in walk(body):
+            if x["k"] == "Binary" and x["op"] in ("Eq", "Ne"):
+                a, b = source(x["a"]), source(x["b"])
+                if a is None or b is None:
+                    continue
+                n += 1
+                R.ob("C06:merge-guard:compares-two-different-clauses:%s@%d" % (short(p), x["ln"] - it["line"]), a != b,
+                     "%s compares the index argument position of a clause with itself (line %s): the test is always true, and an asserta/assertz of a clause indexed on "
+                     "another argument merges it into the block (asserta(p(_,k)) onto p(a,1). p(b,2). p(a,3). makes p(a,Y) answer [1,3])" % (short(p), x["ln"]), F.where(p))
+    R.floor("comparisons of index argument positions in the incremental compiler", n, 2)
